@@ -57,7 +57,7 @@ func main() {
 		Plan: func(tier string, seed int64) []kit.Batch {
 			nb, n, timeouts := 12, 110, 1
 			if tier == "thorough" {
-				nb, n, timeouts = 48, 2500, 4
+				nb, n, timeouts = 32, 2000, 4
 			}
 			var bs []kit.Batch
 			for i := 0; i < nb; i++ {
